@@ -4,6 +4,7 @@ import (
 	"context"
 	"errors"
 	"fmt"
+	"reflect"
 
 	"github.com/jeroenrinzema/psql-wire/pkg/buffer"
 	"github.com/jeroenrinzema/psql-wire/pkg/types"
@@ -155,6 +156,13 @@ func (column Column) Write(ctx context.Context, writer *buffer.Writer, format Fo
 	tm := TypeMap(ctx)
 	if tm == nil {
 		return errors.New("postgres connection info has not been defined inside the given context")
+	}
+
+	// NOTE: a typed nil pointer (for example a nil *pgtype.Text) represents a
+	// NULL value as well. The type map only recognises a untyped nil and would
+	// call the methods of the nil pointer.
+	if v := reflect.ValueOf(src); v.Kind() == reflect.Pointer && v.IsNil() {
+		src = nil
 	}
 
 	bb := make([]byte, 0)
